@@ -2,8 +2,10 @@ import StarsimModel.Model.Pars
 import StarsimModel.Model.ParsDeep
 import StarsimModel.Model.ParsRefs
 import StarsimModel.Generated.ParsRefs
+import StarsimModel.Model.ParsSim
+import StarsimModel.Generated.ParsSimLevel
 import StarsimModel.Model.Proto
-open StarsimModel StarsimModel.Pars StarsimModel.Proto StarsimModel.ParsRefs
+open StarsimModel StarsimModel.Pars StarsimModel.Proto StarsimModel.ParsRefs StarsimModel.ParsSim
 
 /-! Line-protocol driver for C17 (Model/Pars.lean).  One operation per line, one canonical line out. -/
 
@@ -165,8 +167,42 @@ def parseToks? (s : String) : Option (List (String × Nat)) :=
     | [k, t] => t.toNat?.map (fun t => (k, t))
     | _ => none)
 
+
+/-- round 4: a demographics module `b=<rate|->` | `d=<rate|->` | `o=<id>` -/
+def parseDMod? (s : String) : Option DMod :=
+  match s.splitOn "=" with
+  | ["b", r] => (parseOptNat? r).map DMod.births
+  | ["d", r] => (parseOptNat? r).map DMod.deaths
+  | ["o", i] => i.toNat?.map DMod.other
+  | _ => none
+
+def parseDIn? (s : String) : Option DIn :=
+  if s = "empty" then some .empty else if s = "true" then some .flagTrue else
+  match s.splitOn ":" with
+  | ["mods", l] => if l = "-" then some (.mods []) else ((l.splitOn ",").mapM parseDMod?).map DIn.mods
+  | _ => none
+
+def showOptNat : Option Nat → String
+  | some n => toString n
+  | none => "none"
+
+def showDMod : DMod → String
+  | .births r => "b=" ++ showOptNat r
+  | .deaths r => "d=" ++ showOptNat r
+  | .other i => s!"o={i}"
+
+def showOut (o : Out) : String :=
+  showList showDMod o.mods ++ " " ++ (match o.aging with | some b => showBool b | none => "-")
+
 def stepLine (d : RegData) (line : String) : RegData × String :=
   match words line with
+  | ["demog", dm, b, dth, ag] => (d, match parseDIn? dm, parseOptNat? b, parseOptNat? dth with
+      | some dm, some b, some dth =>
+          let ag : Option (Option Bool) := if ag = "-" then some none else (parseBool? ag).map some
+          (match ag with
+           | some ag => exc showOut (validateDemog Gen.demogSteps ⟨dm, b, dth, ag⟩)
+           | none => "bad-op")
+      | _, _, _ => "bad-op")
   | ["betamap", nets, beta] => (d, match parseBeta? beta with
       | some b =>
           let ns := if nets = "-" then [] else nets.splitOn ","
